@@ -1041,8 +1041,8 @@ def _known_keys(ck) -> set[str]:
 
 def _known_key(ck, case: dict, obs: dict, bad: list[str]) -> str | None:
     """Map a failing case to known finding key(s) ('+'-joined) by SITE, else None.
-      simplify-piecewise-text : every failed observation is a re-parse of simplify()'s text and that text
-                                contains Piecewise (SymbolicDim.simplify returns an unprintable form)
+      simplify-returns-piecewise : the failed observations are the re-parse of simplify()'s text / a
+                                ZeroDivisionError of simplify().evaluate, and that text contains Piecewise
       sympy-autoeval-<op>     : every minimal failing subtree is rooted at <op> and SymPy ALONE (same
                                 constructor calls, no ir-py code) gives the same wrong value
     A failure that mixes a known site with anything else is not known."""
@@ -1050,16 +1050,16 @@ def _known_key(ck, case: dict, obs: dict, bad: list[str]) -> str | None:
     keys = []
     rest = list(bad)
     st = obs.get("simplify_text") or ""
-    if "simplify-piecewise-text" in known and "Piecewise" in st and obs.get("simplify_reparse", [""])[0] == "raise":
-        rest = [b for b in rest if b.split(":")[0] != "simplify_reparse"]
-        if len(rest) < len(bad):
-            keys.append("simplify-piecewise-text")
-    if "simplify-piecewise-evaluate" in known and "Piecewise" in st:
+    if "simplify-returns-piecewise" in known and "Piecewise" in st:
+        # both symptoms of the one site: the text is not parseable / the unused branch divides by zero
+        def sym(b_):
+            k_ = b_.split(":")[0]
+            return (k_ == "simplify_reparse" and obs.get("simplify_reparse", [""])[0] == "raise") or \
+                   (k_ in ("simplify", "shape_simplify") and "ZeroDivisionError" in b_)
         n0 = len(rest)
-        rest = [b for b in rest if not (b.split(":")[0] in ("simplify", "shape_simplify", "simplify_reparse")
-                                        and "ZeroDivisionError" in b)]
+        rest = [b_ for b_ in rest if not sym(b_)]
         if len(rest) < n0:
-            keys.append("simplify-piecewise-evaluate")
+            keys.append("simplify-returns-piecewise")
     if rest:
         attr = sympy_attribution(case, obs, rest)
         if attr is None:
@@ -1078,7 +1078,7 @@ def replay_known(ck) -> None:
         case = k["witness"]
         obs = observe(case)
         bad = oracle(case, obs)
-        if bad and _known_key(ck, case, obs, bad) == k["key"]:
+        if bad and k["key"] in (_known_key(ck, case, obs, bad) or "").split("+"):
             ck.known_finding(k["key"], k["what"])
             ck.hist("known_findings_replayed_on_implementation", k["key"])
         elif bad:
@@ -1354,7 +1354,7 @@ def check_trees(ck, cases: list[dict], report) -> None:
             ck.hist("known_finding_hits", key)
             obs = dict(obs)
             obs.pop("simplify_reparse", None)
-            if "simplify-piecewise-evaluate" in key:
+            if "simplify-returns-piecewise" in key:
                 obs.pop("simplify", None)
             if "sympy-autoeval" in key:
                 in_coq = False     # SymPy's value contradicts exact arithmetic here: the finding, not the model
